@@ -35,10 +35,10 @@ ASSUMPTIONS = [
 
 def bounds(tier):
     if tier == 'quick':
-        return {'max_levels': 4, 'max_leaves': 6, 'schemes': ['A', 'B'],
-                'depth': 3}
-    return {'max_levels': 5, 'max_leaves': 7, 'schemes': ['A', 'B', 'C'],
-            'depth': 4}
+        return {'max_levels': 4, 'max_leaves': 6,
+                'schemes': ['A', 'B', 'D'], 'depth': 3}
+    return {'max_levels': 5, 'max_leaves': 7,
+            'schemes': ['A', 'B', 'C', 'D'], 'depth': 4}
 
 
 def cases(tier, seed):
@@ -360,27 +360,38 @@ def evaluate(case, scratch):
         n_traces += 1
     except Exception as e:
         viol('from-obs-raised', [f'{type(e).__name__}: {e}'])
-    # a label combination that breaks the tree must be refused
-    if L >= 2 and len(model['nodes'][h[-2]]) >= 2:
-        bad_records = copy.deepcopy(records)
-        first = bad_records[0]
-        other_parent = [p for p in model['nodes'][h[-2]]
-                        if p != first[h[-2]]][0]
-        clash = dict(first)
-        clash[h[-2]] = other_parent
-        # keep ancestors consistent with the other parent
-        cur = other_parent
-        for lj in range(len(h) - 2, 0, -1):
-            cur = model['parent'][h[lj]][cur]
-            clash[h[lj - 1]] = cur
-        bad_records.append(clash)
-        try:
-            tax_utils.get_taxonomy_tree(obs_records=bad_records,
-                                        column_hierarchy=list(h))
-            viol('from-obs-two-parents-accepted',
-                 [f'leaf {first[h[-1]]} labelled under two parents'])
-        except RuntimeError:
-            pass
+    # a label combination that breaks the tree must be refused: for every
+    # level below the top, one extra record (placed last, and placed first)
+    # that puts an existing node under a second parent
+    for li in range(1, L):
+        lv, above = h[li], h[li - 1]
+        if len(model['nodes'][above]) < 2:
+            continue
+        for position in ('last', 'first'):
+            bad_records = copy.deepcopy(records)
+            first = bad_records[0]
+            other_parent = [p for p in model['nodes'][above]
+                            if p != first[above]][0]
+            clash = dict(first)
+            clash[above] = other_parent
+            cur = other_parent
+            for lj in range(li - 1, 0, -1):
+                cur = model['parent'][h[lj]][cur]
+                clash[h[lj - 1]] = cur
+            if position == 'last':
+                bad_records.append(clash)
+            else:
+                bad_records.insert(0, clash)
+            try:
+                bad = tax_utils.get_taxonomy_tree(
+                    obs_records=bad_records, column_hierarchy=list(h))
+                TaxonomyTree(data=bad)
+                viol('from-obs-two-parents-accepted',
+                     [f'{lv} node {first[lv]!r} labelled under parents '
+                      f'{first[above]!r} and {other_parent!r} ({position})'])
+            except RuntimeError:
+                pass
+            n_traces += 1
 
     # ---- every single-edit malformed variant must be rejected
     n_mut = 0
